@@ -491,6 +491,7 @@ func imNode(n *Node, x ictx, s ist) (resKind, ist) {
 			if n.HasCatch {
 				s1.exc = false
 				xc := x
+				xc.inTry = x.inTry || n.HasFin // ContractHasTryBlock: eCatch with a finally counts (fix db399c7)
 				xc.h = x.h || n.HasFin
 				k2, s2 := imList(n.Catch, xc, s1)
 				switch k2 {
@@ -582,29 +583,52 @@ func callFree(l []*Node) bool {
 	return true
 }
 
-// unsafeShapes reports (a call inside some finally block, a call inside the catch block of a
-// try that also has a finally block).
-func unsafeShapes(l []*Node) (fin, cat bool) {
+// callInFinally reports whether some finally block contains a contract or native call
+// (the complement of Exec.safe).
+func callInFinally(l []*Node) bool {
 	for _, n := range l {
-		var f1, c1 bool
 		switch n.Op {
 		case nIf, nLocal, nCall:
-			f1, c1 = unsafeShapes(n.Body)
+			if callInFinally(n.Body) {
+				return true
+			}
 		case nNative:
-			f1, c1 = unsafeShapes(cbBody(n))
+			if callInFinally(cbBody(n)) {
+				return true
+			}
 		case nTryC:
-			for _, b := range [][]*Node{n.Body, n.Catch, n.Fin} {
-				f2, c2 := unsafeShapes(b)
-				f1, c1 = f1 || f2, c1 || c2
+			if callInFinally(n.Body) || callInFinally(n.Catch) || callInFinally(n.Fin) {
+				return true
 			}
 			if n.HasFin && !callFree(n.Fin) {
-				f1 = true
-			}
-			if n.HasCatch && n.HasFin && !callFree(n.Catch) {
-				c1 = true
+				return true
 			}
 		}
-		fin, cat = fin || f1, cat || c1
 	}
-	return
+	return false
+}
+
+// callInCatchWithFinally: a call inside the catch block of a try that also has a finally block
+// (the shape of the defect fixed by db399c7; kept as a distribution counter).
+func callInCatchWithFinally(l []*Node) bool {
+	for _, n := range l {
+		switch n.Op {
+		case nIf, nLocal, nCall:
+			if callInCatchWithFinally(n.Body) {
+				return true
+			}
+		case nNative:
+			if callInCatchWithFinally(cbBody(n)) {
+				return true
+			}
+		case nTryC:
+			if callInCatchWithFinally(n.Body) || callInCatchWithFinally(n.Catch) || callInCatchWithFinally(n.Fin) {
+				return true
+			}
+			if n.HasCatch && n.HasFin && !callFree(n.Catch) {
+				return true
+			}
+		}
+	}
+	return false
 }
